@@ -240,6 +240,11 @@ def structural(ctx0):
             est_edges = _cmp_edges(g, al, {WIN: 1, B: -1}, 0, at_least=True)
             est_nodes = stmts(g, lambda st: isinstance(st, ast.Assign) and any(isinstance(t, ast.Name) and t.id == B and v is not None and csrc(v, al) == WIN
                                                                                 for t, v in assigned_pairs(st)))
+            # `B = len(data)` on an edge where len(data) <= window is known establishes the bound just as well
+            len_edges = _cmp_edges(g, al, {WIN: 1, f"len({dparam})": -1}, 0, at_least=True)
+            est_nodes += [n for n in stmts(g, lambda st: isinstance(st, ast.Assign) and any(isinstance(t, ast.Name) and t.id == B and v is not None and src(v) == f"len({dparam})"
+                                                                                             for t, v in assigned_pairs(st)))
+                          if len_edges and guarded_by_edges(g, n, len_edges)]
             kills = [n for n in def_nodes(g, B) if n not in est_nodes]
             w = edge_path(g, [g.entry] + kills, [loop], avoid_nodes=est_nodes, avoid_edges=est_edges)
             ctx.check(w is None, "window/clamp", ctx.construct(q, g.node(loop).ast),
@@ -249,7 +254,7 @@ def structural(ctx0):
             lens = stmts(g, lambda st: isinstance(st, ast.Assign) and any(isinstance(t, ast.Name) and t.id == B and v is not None and src(v) == f"len({dparam})"
                                                                            for t, v in assigned_pairs(st)))
             ctx.check(bool(lens), "window/clamp", q + f" | {B} = len({dparam})", f"the loop bound is not initialised from len({dparam})")
-            overflow = [d for t, lab in est_edges for d in succ_on(g, t, _other(lab))]
+            overflow = [d for t, lab in est_edges + len_edges for d in succ_on(g, t, _other(lab))]
             tn = _check_split(ctx, g, al, q, dparam, "buf", overflow, [loop], "write()")
         else:
             need(ctx, False, f"write: loop bound {src(bound)} is not a local")
@@ -667,6 +672,20 @@ def structural(ctx0):
             ctx.ok("receive/replenish-only-threshold-suppresses", q)
             # payload offset: the length prefix of the NS is the last header field
             inners = [c for c in ast.walk(f) if isinstance(c, ast.Call) and call_attr(c) == "getNS"]
+            if not inners:
+                # the string body cut out directly: its length prefix was unpacked with the header, so the body is packet[hdr : hdr + length]
+                hdr_ = struct.calcsize(fmt)
+                cuts = [(st, _slice_parts(st.value)) for st in statements(f) if isinstance(st, ast.Assign) and _slice_parts(st.value) and src(_slice_parts(st.value)[0]) == pk
+                        and st is not ust]
+                ctx.need(len(cuts) == 1 and cuts[0][1][1] is not None and cuts[0][1][2] is not None, f"{hname}: data = common.getNS(packet[off:])[0] or data = packet[hdr : hdr + length]")
+                cst, csp = cuts[0]
+                ctx.check(lin(csp[1], al) == (frozenset(), hdr_) and lin(csp[2], al) == (frozenset({(DL, 1)}), hdr_), "receive/payload-offset", ctx.construct(q, cst),
+                          f"the data string is cut as {pk}[{csrc(csp[1], al)}:{csrc(csp[2], al)}]; it is the {DL} bytes following the {hdr_}-byte header")
+                dvc = [src(t) for t in cst.targets]
+                for d in deliv:
+                    c = calls_at(g, d, lambda c: call_name(c) == f"{ch}.{cb}")[0]
+                    ctx.check(src(c.args[-1]) in dvc, "receive/payload-offset", ctx.construct(q, c), "what is delivered is not the decoded data string")
+                return
             ctx.need(len(inners) == 1, f"{hname}: one common.getNS(packet[off:]) call")
             inner = inners[0]
             gn = [st for st in statements(f) if isinstance(st, ast.Assign) and any(c is inner for c in ast.walk(st.value))]
